@@ -1,5 +1,6 @@
 """Sequential properties: generator slice, owned channels (what the property judges, spec vs real)
 and projection (what ties the model to the code, model vs real)."""
+import os
 import random
 
 from . import gen, oracle, seq
@@ -269,6 +270,7 @@ ADVERSARIAL = [
 # distinct strings that some normalisation would identify (canonical / compatibility equivalence, case folding)
 EQUIVALENT_PAIRS = [("caf\u00e9", "cafe\u0301"), ("\uac00", "\u1100\u1161"), ("\u212b", "\u00c5"), ("\ufb01x", "fix"),
                     ("stra\u00dfe", "strasse"), ("\u01c4", "D\u017d"), ("\u0387", "\u00b7"), ("a\u0323\u0307", "a\u0307\u0323")]
+ADVERSARIAL += [os.path.abspath(__file__), os.path.dirname(os.path.abspath(__file__))]   # name an existing file / directory
 REJECTED_IDS = ["a b", "a\tb", "a\nb", "a\rb", "\x85x", "x\xa0", "\u1680", "a\u2028b", "a\u3000", "\x1c", " lead", "trail "]
 
 
